@@ -1013,6 +1013,29 @@ fn sequential(cx: &mut Ctx<'_>, rng: &mut Rng, run_idx: u64, t0: i128, tier: vli
         rot_reading: t0,
         touched: BTreeSet::new(),
     };
+    // A third of the runs with a file limit start on a directory that already holds MORE of the
+    // appender's own log files than the limit (left by an earlier run with a larger limit):
+    // construction removes nothing, the first rotation brings the directory down to the limit.
+    if let (Some(lim), true) = (cfg.max_files, rng.chance(1, 3)) {
+        let n = lim + 1 + rng.usize(3);
+        if cfg.expected_name(0).is_some() && t0 - (n as i128 + 1) * 86_400 >= 0 {
+            let mut planted = 0;
+            for k in (1..=n).rev() {
+                if let Some(name) = cfg.expected_name(t0 - k as i128 * 86_400) {
+                    if m.files.contains_key(&name) {
+                        continue;
+                    }
+                    let body = format!("left over from an earlier run, period -{k}\n").into_bytes();
+                    std::fs::write(dir.join(&name), &body).unwrap_or_else(|e| panic!("HARNESS: write backlog file {name}: {e}"));
+                    m.files.insert(name, body);
+                    planted += 1;
+                    std::thread::sleep(SPACING);
+                }
+            }
+            cx.out.count("runs_starting_with_more_own_log_files_than_the_limit", 1);
+            cx.script.push(json!({"step": "backlog", "files_planted_before_construction": planted, "limit": lim}));
+        }
+    }
     set_time(t0);
     let s0 = snap(dir);
     let mut app = build(cfg, dir).map_err(|e| inconcl(format!("appender could not be built: {e}")))?;
